@@ -77,7 +77,14 @@ Record ans := mk_ans { a_full : bool; a_toggle : option bool; a_newbuf : option 
 Definition default_ans := mk_ans false None None 1.
 
 Inductive ev :=
-| ECb (kind : nat) (flag : bool)            (* 0 is_backend_full, 1 open_packet, 2 close_packet, 3 clock *)
+| ECb (kind : nat) (flag : bool) (is_open : bool)
+      (* callback entry: 0 is_backend_full, 1 open_packet, 2 close_packet, 3 clock; with the values of
+         the in-tracing-section flag and of packet_is_open at that moment *)
+| EAns (full : bool)                        (* answer of is_backend_full (ghost: not printed) *)
+| EStore (flag : bool)                      (* a serialization into the packet buffer, with the flag (ghost) *)
+| ETs (kind : nat) (v : Z)                  (* a timestamp written: 0 packet beginning, 1 packet end, 2 record (ghost) *)
+| ESample (v : Z)                           (* value returned by the clock callback (ghost) *)
+| EDisc                                     (* events_discarded incremented (ghost) *)
 | EPacket (size_bits : nat) (content : list Z)   (* bytes handed over in the close callback *)
 | ERet (c : ctx)                            (* context after a public call returned *)
 | EErr (code : nat).                        (* 1: store outside the packet buffer, 2: assert in _reserve_er_space *)
@@ -127,18 +134,19 @@ Section Stream.
 
   (* clock source callback: monotone by construction *)
   Definition clock_cb (w : world) : Z * world :=
-    let w := logev w (ECb 3 (c_in_ts (w_c w))) in
+    let w := logev w (ECb 3 (c_in_ts (w_c w)) (c_open (w_c w))) in
     let (a, w) := pop w in
     let t := ((w_clk w + Z.of_nat (a_inc a)) mod 2 ^ Z.of_nat (d_clock_bits d))%Z in
-    let w := mk_w (w_c w) (w_or w) t (w_log w) (w_err w) (w_pcargs w) in
+    let w := mk_w (w_c w) (w_or w) t (w_log w ++ [ESample t]) (w_err w) (w_pcargs w) in
     (t, apply_toggle w a).
 
   Definition full_cb (w : world) : bool * world :=
-    let w := logev w (ECb 0 (c_in_ts (w_c w))) in
+    let w := logev w (ECb 0 (c_in_ts (w_c w)) (c_open (w_c w))) in
     let (a, w) := pop w in
-    (a_full a, apply_toggle w a).
+    (a_full a, apply_toggle (logev w (EAns (a_full a))) a).
 
   Definition do_ser (w : world) (o : op) (v : val) : world :=
+    let w := logev w (EStore (c_in_ts (w_c w))) in
     let c := w_c w in
     match ser (d_bo d) (d_native_known d) (c_psize c) o v (mk_ss (c_s c) (c_at c) []) with
     | Some st =>
@@ -182,6 +190,7 @@ Section Stream.
                                  (c_open c) true (c_enabled c) (c_use_ts c) (c_last_ts c) []) in
         let w := match snd (ph_build d) with
                  | Some o => do_ser w o (VArr (d_ph_vals d)) | None => w end in
+        let w := if d_has_clock d && has_member (d_pc d) "timestamp_begin" then logev w (ETs 0 ts) else w in
         let w := do_ser w (pc_op d)
                         (VArr (pc_vals (s_mems (d_pc d)) (c_psize c) (c_seq c) ts (w_pcargs w))) in
         let c := w_c w in
@@ -217,6 +226,7 @@ Section Stream.
         let c := mk_ctx (c_s c) (c_psize c) (c_at c) (c_at c) (c_off_content c) (c_disc c) (c_seq c)
                         (c_open c) true (c_enabled c) (c_use_ts c) (c_last_ts c) (c_saved c) in
         let w := set_c w c in
+        let w := if d_has_clock d && has_member (d_pc d) "timestamp_end" then logev w (ETs 1 ts) else w in
         let w := write_saved w "timestamp_end" ts in
         let w := write_saved w "content_size" (Z.of_nat (c_content (w_c w))) in
         let w := write_saved w "events_discarded" (Z.of_nat (c_disc (w_c w))) in
@@ -228,7 +238,7 @@ Section Stream.
   (* platform callbacks (conformant platform of api.adoc): open_packet calls the opening function;
      close_packet calls the closing function, takes the packet, may install another buffer *)
   Definition open_cb (w : world) : world :=
-    let w := logev w (ECb 1 (c_in_ts (w_c w))) in
+    let w := logev w (ECb 1 (c_in_ts (w_c w)) (c_open (w_c w))) in
     let (a, w) := pop w in
     let w := apply_toggle w a in
     open_fn w.
@@ -240,7 +250,7 @@ Section Stream.
            (c_last_ts c) (c_saved c).
 
   Definition close_cb (w : world) : world :=
-    let w := logev w (ECb 2 (c_in_ts (w_c w))) in
+    let w := logev w (ECb 2 (c_in_ts (w_c w)) (c_open (w_c w))) in
     let (a, w) := pop w in
     let w := apply_toggle w a in
     let was_open := c_open (w_c w) in
@@ -265,7 +275,7 @@ Section Stream.
   Definition gt_diff32 (er_size a b : nat) : bool := if b <=? a then a - b <? er_size else false.
 
   (* _reserve_er_space *)
-  Definition no_space (w : world) : bool * world := (false, set_c w (incr_disc (w_c w))).
+  Definition no_space (w : world) : bool * world := (false, logev (set_c w (incr_disc (w_c w))) EDisc).
   Definition reserve (w : world) (er_size : nat) : bool * world :=
     let c := w_c w in
     if gt_diff32 er_size (c_psize c) (c_off_content c) then no_space w
@@ -334,6 +344,8 @@ Section Stream.
           if negb ok then set_c w (set_in_ts (w_c w) false)
           else if w_err w then w
           else
+            let w := if d_has_clock d && has_member_o (d_eh d) "timestamp"
+                     then logev w (ETs 2 (c_last_ts (w_c w))) else w in
             let w := ser_parts w (rec_parts e (c_last_ts (w_c w)) args) in
             if w_err w then w
             else
@@ -371,7 +383,8 @@ End Stream.
 Definition zb (b : bool) : Z := if b then 1%Z else 0%Z.
 Definition enc_ev (e : ev) : list Z :=
   match e with
-  | ECb k f => [1; Z.of_nat k; zb f]%Z
+  | ECb k f o => [1; Z.of_nat k; zb f; zb o]%Z
+  | EAns _ | EStore _ | ETs _ _ | ESample _ | EDisc => []
   | EPacket n bytes => [2%Z; Z.of_nat n; Z.of_nat (List.length bytes)] ++ bytes
   | ERet c => [3%Z; Z.of_nat (c_at c); Z.of_nat (c_psize c); Z.of_nat (c_content c); Z.of_nat (c_off_content c);
                Z.of_nat (c_disc c); Z.of_nat (c_seq c); zb (c_open c); zb (c_in_ts c); zb (c_enabled c);
